@@ -1,0 +1,111 @@
+//go:build verif
+// +build verif
+
+package node
+
+// Verification hooks (build tag `verif` only).
+//
+// verifPoint(name) is called at named points of the persist / apply / snapshot /
+// restart / purge path.  Two things can be armed, by environment at process start or at
+// run time through VerifArmCrash / VerifArmHold (verif_export_node.go):
+//
+//   crash  VERIF_CRASH=<name>:<k>             the k-th hit of <name> (counted from arming)
+//                                             reports "DIED <name> <k>" and SIGKILLs the process
+//   hold   VERIF_HOLD=<name>:<k>:<rel>:<j>    the k-th hit of <name> reports "HELD <name> <k>" and
+//                                             blocks the calling goroutine until hook <rel> has been
+//                                             passed j more times (empty <rel>: for ever)
+//
+// Reports go to the file descriptor named by VERIF_CTL_FD (default 2), one line each.
+
+import (
+	"fmt"
+	"os"
+	"strconv"
+	"strings"
+	"sync"
+	"syscall"
+
+	"github.com/youzan/ZanRedisDB/pkg/fileutil"
+)
+
+type verifState struct {
+	mu   sync.Mutex
+	cond *sync.Cond
+	hits map[string]int
+
+	crashName string
+	crashAt   int // absolute hit count of crashName at which to die; 0 = not armed
+
+	holdName  string
+	holdAt    int // absolute hit count of holdName at which to block; 0 = not armed
+	holdRel   string
+	holdRelAt int // absolute hit count of holdRel that releases the hold
+
+	out *os.File
+}
+
+var verifS = newVerifState()
+
+func newVerifState() *verifState {
+	s := &verifState{hits: make(map[string]int), out: os.Stderr}
+	s.cond = sync.NewCond(&s.mu)
+	if v := os.Getenv("VERIF_CTL_FD"); v != "" {
+		if fd, err := strconv.Atoi(v); err == nil && fd > 0 {
+			s.out = os.NewFile(uintptr(fd), "verifctl")
+		}
+	}
+	if v := os.Getenv("VERIF_CRASH"); v != "" {
+		p := strings.Split(v, ":")
+		k := 1
+		if len(p) > 1 {
+			k, _ = strconv.Atoi(p[1])
+		}
+		s.crashName, s.crashAt = p[0], k
+	}
+	if v := os.Getenv("VERIF_HOLD"); v != "" {
+		p := strings.Split(v, ":")
+		for len(p) < 4 {
+			p = append(p, "")
+		}
+		k, _ := strconv.Atoi(p[1])
+		if k <= 0 {
+			k = 1
+		}
+		j, _ := strconv.Atoi(p[3])
+		if j <= 0 {
+			j = 1
+		}
+		s.holdName, s.holdAt, s.holdRel, s.holdRelAt = p[0], k, p[2], j
+	}
+	return s
+}
+
+func init() {
+	fileutil.VerifHook = verifPoint
+}
+
+func (s *verifState) report(format string, args ...interface{}) {
+	fmt.Fprintf(s.out, format+"\n", args...)
+}
+
+func verifPoint(name string) {
+	s := verifS
+	s.mu.Lock()
+	s.hits[name]++
+	n := s.hits[name]
+	s.cond.Broadcast()
+	if s.crashAt > 0 && name == s.crashName && n == s.crashAt {
+		s.report("DIED %s %d", name, n)
+		syscall.Kill(os.Getpid(), syscall.SIGKILL)
+		s.mu.Unlock()
+		select {}
+	}
+	if s.holdAt > 0 && name == s.holdName && n == s.holdAt {
+		s.report("HELD %s %d", name, n)
+		for s.holdRel == "" || s.hits[s.holdRel] < s.holdRelAt {
+			s.cond.Wait()
+		}
+		s.report("RELEASED %s %d", name, n)
+	}
+	s.mu.Unlock()
+}
